@@ -246,3 +246,81 @@ Proof.
       * now rewrite Hne.
       * destruct (seg_eqb k0 k'); [discriminate|]. now apply IH.
 Qed.
+
+(** ** [Option.set(options, value)] = mix(options, {dotted key: value}) *)
+Fixpoint single (k : key) (v : json) : json :=
+  match k with
+  | [] => v
+  | s :: k' => JObj [(s, single k' v)]
+  end.
+
+Lemma set_dotted_nil k v : k <> [] -> set_dotted k v [] = Some (as_dict (single k v)).
+Proof.
+  induction k as [|s k IH]; intros Hne; [congruence|].
+  destruct k as [|s' k].
+  - reflexivity.
+  - assert (IH' : set_dotted (s' :: k) v [] = Some (as_dict (single (s' :: k) v))) by (apply IH; discriminate).
+    change (set_dotted (s :: s' :: k) v []) with
+      (match set_dotted (s' :: k) v [] with Some sub => Some (dset s (JObj sub) []) | None => None end).
+    rewrite IH'. reflexivity.
+Qed.
+
+Lemma wf_single k v : wf_json v = true -> wf_json (single k v) = true.
+Proof. induction k as [|s k IH]; intros H; simpl; [exact H|]. now rewrite IH. Qed.
+
+Lemma lookup_single k v : forallb is_name k = true -> lookup k (single k v) = Found v.
+Proof.
+  induction k as [|s k IH]; intros H; [reflexivity|].
+  cbn [forallb] in H. apply andb_prop in H as [Hs Hk].
+  destruct s as [n|i]; [|discriminate].
+  cbn [single lookup dget]. rewrite seg_eqb_refl. now apply IH.
+Qed.
+
+Definition set_option (k : key) (v : json) (o : dict) : dict := mix o (as_dict (single k v)).
+
+(** the Option then evaluates to the value set … *)
+Theorem set_then_get k v o :
+  k <> [] -> forallb is_name k = true -> wf_json v = true -> (forall m, v <> JObj m) ->
+  lookup k (JObj (set_option k v o)) = Found v.
+Proof.
+  intros Hne Hn Hwf Hns. unfold set_option.
+  destruct k as [|s k]; [congruence|]. cbn [single as_dict].
+  apply lookup_mix_preset_wins; try assumption.
+  - change (JObj [(s, single k v)]) with (single (s :: k) v). now apply wf_single.
+  - change (JObj [(s, single k v)]) with (single (s :: k) v). now apply lookup_single.
+Qed.
+
+(** … and every other key (one that is neither a prefix nor an extension of it) is intact. *)
+Fixpoint diverge (k k' : key) : bool :=
+  match k, k' with
+  | s :: kr, s' :: kr' => if seg_eqb s s' then diverge kr kr' else true
+  | _, _ => false
+  end.
+
+Theorem set_keeps_other_keys k : forall k' v o w,
+  diverge k k' = true -> forallb is_name k' = true ->
+  lookup k' (JObj o) = Found w ->
+  lookup k' (JObj (set_option k v o)) = Found w.
+Proof.
+  induction k as [|s kr IH]; intros k' v o w Hd Hn Hl; [discriminate|].
+  destruct k' as [|s' kr']; [discriminate|].
+  unfold set_option. cbn [single as_dict].
+  rewrite lookup_mix_step by reflexivity.
+  cbn [forallb] in Hn. apply andb_prop in Hn as [Hs' Hn'].
+  destruct s' as [n'|i']; [|discriminate].
+  cbn [diverge] in Hd. cbn [dget].
+  destruct (seg_eqb s (SName n')) eqn:E.
+  - apply seg_eqb_eq in E. subst s. rewrite seg_eqb_refl.
+    destruct kr as [|s2 kr2]; [discriminate|].
+    cbn [single].
+    cbn [lookup] in Hl.
+    destruct (dget (SName n') o) as [d|] eqn:Ed; [|discriminate].
+    destruct kr' as [|s3 kr3]; [destruct s2; discriminate|].
+    assert (Hdict : exists dm, d = JObj dm).
+    { cbn [forallb] in Hn'. apply andb_prop in Hn' as [Hs3 _].
+      destruct s3; [|discriminate]. destruct d; cbn [lookup] in Hl; try discriminate. eauto. }
+    destruct Hdict as [dm ->]. cbn [as_dict].
+    change (JObj (mix dm [(s2, single kr2 v)])) with (JObj (set_option (s2 :: kr2) v dm)).
+    now apply IH.
+  - rewrite seg_eqb_sym in E. rewrite E. exact Hl.
+Qed.
